@@ -675,6 +675,14 @@ impl VisitMut for Rw {
                     None
                 }
             }
+            Expr::Binary(b) if matches!(b.op, BinOp::Eq(_)) && matches!(&*b.left, Expr::MethodCall(m) if m.method == "borrow" && m.args.is_empty()) => {
+                // R12: `a.borrow() == k` (K: Borrow<Q>, Q: Eq): the key comparison of the map-like containers, as one prelude
+                // function whose result is the uninterpreted relation vborrow_eq (equality when Q = K)
+                let a = if let Expr::MethodCall(m) = &*b.left { (*m.receiver).clone() } else { unreachable!() };
+                let k = (*b.right).clone();
+                self.log.push("R12 a.borrow() == k -> vx_key_eq(&a, k)".into());
+                Some(parse_quote!(vx_key_eq(&#a, #k)))
+            }
             Expr::Call(c) if is_logging_call(c) => {
                 self.log.push("R5 logging::* call dropped (expression position)".into());
                 Some(parse_quote!(()))
